@@ -7,11 +7,7 @@
 #define FCPPT_MATH_CEIL_DIV_SIGNED_HPP_INCLUDED
 
 #include <fcppt/literal.hpp>
-#include <fcppt/cast/to_signed.hpp>
-#include <fcppt/cast/to_unsigned.hpp>
-#include <fcppt/math/ceil_div.hpp>
 #include <fcppt/optional/make_if.hpp>
-#include <fcppt/optional/map.hpp>
 #include <fcppt/optional/object_impl.hpp>
 #include <fcppt/config/external_begin.hpp>
 #include <type_traits>
@@ -26,8 +22,9 @@ namespace math
 
 \ingroup fcpptmath
 
-The same as #fcppt::math::ceil_div, except in case where dividend
-is negative, dividend / divisor is returned.
+The same as #fcppt::math::ceil_div, but for signed types: if the dividend is
+negative (and the divisor is positive), dividend / divisor is returned.
+Negative divisors are handled as well.
 
 \tparam T A signed type
 */
@@ -38,15 +35,18 @@ fcppt::optional::object<T> ceil_div_signed(T const &_dividend, T const &_divisor
 
   T const zero{fcppt::literal<T>(0)};
 
-  return (_dividend < zero)
-             ? fcppt::optional::make_if(
-                   _divisor != zero, [_dividend, _divisor] { return _dividend / _divisor; })
-             : fcppt::optional::map(
-                   fcppt::math::ceil_div(
-                       fcppt::cast::to_unsigned(_dividend), fcppt::cast::to_unsigned(_divisor)),
-                   [](std::make_unsigned_t<T> const _result) {
-                     return fcppt::cast::to_signed(_result);
-                   });
+  // The truncating quotient is already the ceiling unless the division is
+  // inexact and the exact quotient is positive, i.e. the remainder has the
+  // sign of the divisor. This also covers negative divisors, for which
+  // converting both operands to unsigned gave meaningless results.
+  return fcppt::optional::make_if(_divisor != zero, [_dividend, _divisor, zero] {
+    T const quotient{_dividend / _divisor};
+    T const remainder{_dividend % _divisor};
+
+    return remainder != zero && (remainder < zero) == (_divisor < zero)
+               ? quotient + fcppt::literal<T>(1)
+               : quotient;
+  });
 }
 
 }
